@@ -77,7 +77,7 @@ def main():
                 # demos may hard-code their worktree's src path: redirect it
                 import re
 
-                text2 = re.sub(r"/tmp/w[t2]-[A-Za-z0-9_]+/src", str(work / which / "src"), text)
+                text2 = re.sub(r"/tmp/w[t0-9]-[A-Za-z0-9_]+/src", str(work / which / "src"), text)
                 dpath = work / f"demo_{which}.py"
                 dpath.write_text(text2)
                 d = sh(["/venv/bin/python", str(dpath)], env=env, cwd=str(work), timeout=900)
